@@ -4,7 +4,9 @@ mod core;
 mod corpus;
 mod blocks;
 mod coverage;
+mod front;
 mod graph;
+mod lexer;
 
 use crate::core::{Ann, Naming};
 
@@ -44,6 +46,8 @@ fn main() {
         | "replay-comatch" => coverage::replay_comatch(&args[2], &args[3]),
         | "replay-graph" => graph::replay_graph(&args[2], &args[3]),
         | "replay-blocks" => blocks::replay_blocks(&args[2], &args[3]),
+        | "replay-lexer" => lexer::replay_lexer(&args[2], &args[3]),
+        | "junk-suffix" => lexer::junk_suffix(&args[2]),
         | "corpus-run" => {
             // zyconf corpus-run OUT MUTANTS_PER_FILE MAX_STEPS
             corpus::corpus_run(&args[2], args[3].parse().unwrap(), args[4].parse().unwrap());
